@@ -5,10 +5,15 @@
 package main
 
 import (
+	"context"
 	"fmt"
 	"os"
+	"sort"
 	"strings"
+	"time"
 
+	"github.com/cube2222/octosql/aggregates"
+	"github.com/cube2222/octosql/execution"
 	"github.com/cube2222/octosql/logical"
 	"github.com/cube2222/octosql/octosql"
 	"github.com/cube2222/octosql/physical"
@@ -125,8 +130,7 @@ func call(n string, as ...*lx) *lx {
 	return &lx{op: "call", name: n, args: as}
 }
 
-var numericStrings = []string{"0", "12", "-1", "+5", "007", "9223372036854775807", "9223372036854775808", "-9223372036854775808",
-	"-9223372036854775809", "1e5", "0x10", "1_0", " 1", "1 ", "", "x", "1.5", "-", "+", "NaN", "inf", ".5", "1.", "٣"}
+var numericStrings = exprh.NumericStrings
 
 // genConforming draws a value admitted by t; strings are numeric-looking half of the time (int('x'), float('1e5') ...)
 func genConforming(r *lib.Rng, t octosql.Type) octosql.Value {
@@ -141,6 +145,11 @@ type engine struct{ cf *lib.CaseFile }
 
 // addCase typechecks x over the column types, evaluates on nrows conforming rows, records everything.
 func (g *engine) addCase(r *lib.Rng, types []octosql.Type, x *lx, family string, nrows int) {
+	g.addCaseRows(r, types, x, family, nrows, 0)
+}
+
+// addCaseRows: edge > 0 prepends `edge` systematic edge rows (exprh.EdgeRows; -1 = all of them) to the nrows random rows.
+func (g *engine) addCaseRows(r *lib.Rng, types []octosql.Type, x *lx, family string, nrows int, edge int) {
 	cf := g.cf
 	env := exprh.NewEnv(types)
 	envCoq := exprh.Stys(types)
@@ -188,13 +197,29 @@ func (g *engine) addCase(r *lib.Rng, types []octosql.Type, x *lx, family string,
 	nullSeen, valueSeen := false, false
 	clock := x.usesCall("now")
 	repeats := x.usesCall("*")
-	for k := 0; k < nrows; k++ {
+	var fixedRows [][]octosql.Value
+	if edge != 0 && len(types) > 0 {
+		n := edge
+		if n < 0 {
+			n = 0
+		}
+		fixedRows = exprh.EdgeRows(types, n)
+	}
+	for k := 0; k < len(fixedRows)+nrows; k++ {
 		row := make([]octosql.Value, len(types))
-		for i, t := range types {
-			row[i] = genConforming(r, t)
+		if k < len(fixedRows) {
+			copy(row, fixedRows[k])
+		} else {
+			for i, t := range types {
+				row[i] = genConforming(r, t)
+			}
 		}
 		if repeats {
 			exprh.ClampRepeatCounts(row)
+		}
+		if env.RepeatHazard(pe, [][]octosql.Value{row}) {
+			cf.Count("skipped_repeat_hazard")
+			continue
 		}
 		obs := exprh.Eval(ex, [][]octosql.Value{row})
 		runsJS = append(runsJS, map[string]interface{}{"row": lib.ValuesJSON(row), "observed": obs.JSON()})
@@ -289,7 +314,44 @@ func (g *engine) descriptorSweep(rng *lib.Rng, reps int) {
 					types[i] = t
 					args[i] = v(i)
 				}
-				g.addCase(r, types, call(row.Name, args...), fmt.Sprintf("descriptor_mode%d", mode), 4)
+				if mode == 0 {
+					// exactly-typed columns: every edge value of every argument kind (NaN, +-Inf, -0, MinInt64, non-numeric strings ...)
+					g.addCaseRows(r, types, call(row.Name, args...), "descriptor_mode0", 2, -1)
+				} else {
+					g.addCaseRows(r, types, call(row.Name, args...), fmt.Sprintf("descriptor_mode%d", mode), 4, 4)
+				}
+			}
+			// one argument whose static type is exactly NULL (the literal; a column that was null in every record) or Any
+			for _, vec := range vectors {
+				for pos := range vec {
+					for _, typing := range []string{"null_literal", "null_column", "any_column"} {
+						r := rng.Fork()
+						types := make([]octosql.Type, len(vec))
+						args := make([]*lx, len(vec))
+						for i, t := range vec {
+							if t.TypeID == octosql.TypeIDAny {
+								t = exprh.ScalarTypes[1+r.Intn(6)]
+							}
+							types[i] = t
+							args[i] = v(i)
+							if i == pos {
+								switch typing {
+								case "null_literal":
+									types[i] = octosql.Null
+									args[i] = c(octosql.NewNull())
+								case "null_column":
+									types[i] = octosql.Null
+								case "any_column":
+									types[i] = octosql.Any
+								}
+							}
+						}
+						g.addCaseRows(r, types, call(row.Name, args...), "descriptor_"+typing, 2, 6)
+					}
+				}
+				if row.Desc.TypeFn != nil {
+					break // one candidate vector is enough for the TypeFn descriptors here
+				}
 			}
 		}
 	}
@@ -342,6 +404,196 @@ func (g *engine) structuralSweep(rng *lib.Rng) {
 }
 
 func types0(t octosql.Type) []octosql.Type { return []octosql.Type{t} }
+
+// compositionSweep: outer(inner(columns...), columns...) over exactly-typed columns holding edge values: function results
+// (non-finite floats out of sqrt / log / division, NULLs out of failed parses, huge ints ...) feeding other functions.
+func (g *engine) compositionSweep(rng *lib.Rng, sample int, rows int) {
+	comps := exprh.Compositions(exprh.Table(exprh.FunctionMap()))
+	g.cf.Side.Distribution["composition_pairs_total"] = len(comps)
+	for ci, comp := range comps {
+		r := rng.Fork()
+		if sample > 1 && ci%sample != int(r.U64()%uint64(sample)) {
+			continue
+		}
+		var types []octosql.Type
+		concrete := func(t octosql.Type) octosql.Type {
+			if t.TypeID == octosql.TypeIDAny {
+				return exprh.ScalarTypes[1+r.Intn(6)]
+			}
+			return t
+		}
+		inner := make([]*lx, len(comp.Inner.Desc.ArgumentTypes))
+		for i, t := range comp.Inner.Desc.ArgumentTypes {
+			inner[i] = v(len(types))
+			types = append(types, concrete(t))
+		}
+		outer := make([]*lx, len(comp.Outer.Desc.ArgumentTypes))
+		for i, t := range comp.Outer.Desc.ArgumentTypes {
+			if i == comp.Pos {
+				outer[i] = call(comp.Inner.Name, inner...)
+				continue
+			}
+			outer[i] = v(len(types))
+			types = append(types, concrete(t))
+		}
+		g.addCaseRows(r, types, call(comp.Outer.Name, outer...), "composition", 1, rows)
+	}
+}
+
+// ---- query slice: GROUP BY with every aggregate, typechecked and run in-process; every produced value is checked
+// against the schema the typechecked plan reports (what --describe prints) ----
+
+type memSource struct {
+	fields  []physical.SchemaField
+	mapping map[string]string
+	records []execution.Record
+}
+
+func (m *memSource) Typecheck(ctx context.Context, env physical.Environment, logicalEnv logical.Environment) (physical.Node, map[string]string) {
+	return physical.Node{
+		Schema:          physical.NewSchema(m.fields, -1),
+		NodeType:        physical.NodeTypeInMemoryRecords,
+		InMemoryRecords: &physical.InMemoryRecords{Records: m.records},
+	}, m.mapping
+}
+
+func (g *engine) aggregateSlice(rng *lib.Rng, reps int) {
+	var names []string
+	for n := range aggregates.Aggregates {
+		names = append(names, n)
+	}
+	sort.Strings(names)
+	N := octosql.Null
+	inputTypes := []octosql.Type{octosql.Int, octosql.Float, octosql.Duration, octosql.Time, octosql.String, octosql.Boolean}
+	for _, name := range names {
+		for _, base := range inputTypes {
+			// static typing of the aggregated column: T, T | NULL, T | other | NULL (Maybe pass), exactly NULL
+			typings := []octosql.Type{base, octosql.TypeSum(base, N), octosql.TypeSum(octosql.TypeSum(base, N), octosql.String), N}
+			for ti, xt := range typings {
+				for _, trigger := range []string{"end_of_stream", "counting"} {
+					for rep := 0; rep < reps; rep++ {
+						g.aggregateCase(rng.Fork(), name, base, xt, ti, trigger)
+					}
+				}
+			}
+		}
+	}
+}
+
+func (g *engine) aggregateCase(r *lib.Rng, name string, base, xt octosql.Type, typing int, trigger string) {
+	cf := g.cf
+	fields := []physical.SchemaField{{Name: "t.k_0", Type: octosql.Int}, {Name: "t.x_0", Type: xt}}
+	mapping := map[string]string{"t.k": "t.k_0", "t.x": "t.x_0"}
+	nullable := octosql.Null.Is(xt) == octosql.TypeRelationIs
+	// groups: 0 = every aggregated value NULL (when the type allows), 1 = mixed, 2 = no NULL, 3 = a single record
+	var recs []execution.Record
+	var rowsJS []interface{}
+	add := func(k int64, x octosql.Value) {
+		recs = append(recs, execution.NewRecord([]octosql.Value{octosql.NewInt(k), x}, false, time.Time{}))
+		rowsJS = append(rowsJS, lib.ValuesJSON([]octosql.Value{octosql.NewInt(k), x}))
+	}
+	val := func() octosql.Value {
+		if xt.TypeID == octosql.TypeIDNull {
+			return octosql.NewNull()
+		}
+		return exprh.GenOfType(r, base, false)
+	}
+	if nullable {
+		for i := 0; i < 1+r.Intn(3); i++ {
+			add(0, octosql.NewNull())
+		}
+		for i := 0; i < 2+r.Intn(3); i++ {
+			if r.Bool() {
+				add(1, octosql.NewNull())
+			} else {
+				add(1, val())
+			}
+		}
+		add(1, octosql.NewNull())
+	}
+	for i := 0; i < 1+r.Intn(4); i++ {
+		add(2, val())
+	}
+	add(3, val())
+	src := &memSource{fields: fields, mapping: mapping, records: recs}
+	var triggers []logical.Trigger
+	if trigger == "counting" {
+		triggers = []logical.Trigger{logical.NewCountingTrigger(1)}
+	}
+	gb := logical.NewGroupBy(src, []logical.Expression{logical.NewVariable("t.k")}, []string{"k"},
+		[]logical.Expression{logical.NewVariable("t.x")}, []string{name}, []string{name + "_x"}, triggers)
+	env := physical.Environment{Aggregates: aggregates.Aggregates, Functions: exprh.FunctionMap()}
+	logEnv := logical.Environment{UniqueNameGenerator: map[string]int{}}
+	js := map[string]interface{}{"family": "aggregate", "query": fmt.Sprintf("SELECT k, %s(x) FROM t GROUP BY k  [trigger %s]", name, trigger),
+		"x_type": xt.String(), "records": rowsJS}
+	var node physical.Node
+	var tcPanic interface{}
+	func() {
+		defer func() { tcPanic = recover() }()
+		node, _ = gb.Typecheck(context.Background(), env, logEnv)
+	}()
+	if tcPanic != nil {
+		cf.Count("aggregate:typecheck_rejected")
+		return
+	}
+	schemaTypes := make([]octosql.Type, len(node.Schema.Fields))
+	described := make([]string, len(node.Schema.Fields))
+	for i, f := range node.Schema.Fields {
+		schemaTypes[i] = f.Type
+		described[i] = f.Type.String()
+	}
+	js["described_types"] = described
+	var exNode execution.Node
+	var merr error
+	var mp interface{}
+	func() {
+		defer func() { mp = recover() }()
+		exNode, merr = node.Materialize(context.Background(), env)
+	}()
+	if merr != nil || mp != nil {
+		cf.Count("aggregate:materialize_failed")
+		return
+	}
+	out, runErr, runPanic := lib.RunNode(exNode)
+	var rows []string
+	var outJS []interface{}
+	var bads []string
+	nullOut := false
+	for _, e := range out {
+		if e.IsWM {
+			continue
+		}
+		rows = append(rows, lib.CoqValues(e.Rec.Values))
+		outJS = append(outJS, lib.ValuesJSON(e.Rec.Values))
+		for i, val := range e.Rec.Values {
+			if i < len(schemaTypes) && !exprh.Conforms(val, schemaTypes[i]) {
+				bads = append(bads, fmt.Sprintf("%s over x : %s [trigger %s]: output column %d is described as %s but a record holds %s (TypeID %s); input records (k, x): %v",
+					name, xt.String(), trigger, i, schemaTypes[i].String(), val.String(), val.TypeID.String(), rowsJS))
+			}
+			if i == 1 && val.TypeID == octosql.TypeIDNull {
+				nullOut = true
+			}
+		}
+	}
+	js["produced"] = outJS
+	if runErr != nil {
+		js["error"] = runErr.Error()
+		cf.Count("aggregate:run_error")
+	}
+	if runPanic != nil {
+		js["panic"] = fmt.Sprint(runPanic)
+		cf.Count("aggregate:run_panic")
+	}
+	idx := cf.Add(fmt.Sprintf("(C8Q %s [%s])", exprh.Stys(schemaTypes), strings.Join(rows, "; ")), js, len(rows) > 0)
+	for _, b := range bads {
+		cf.Violation(idx, b, "")
+	}
+	cf.Count("family:aggregate")
+	cf.Count(fmt.Sprintf("aggregate:x_typing_%d", typing))
+	if nullOut {
+		cf.Count("aggregate:null_result_groups")
+	}
+}
 
 // ---- random expressions ----
 var columnPool = []octosql.Type{
@@ -534,7 +786,14 @@ func main() {
 	}
 	g.descriptorSweep(rng.Fork(), reps)
 	g.structuralSweep(rng.Fork())
-	n := f.Cases(400, 6000)
+	if f.Tier == "thorough" {
+		g.compositionSweep(rng.Fork(), 1, 12)
+		g.aggregateSlice(rng.Fork(), 4)
+	} else {
+		g.compositionSweep(rng.Fork(), 4, 5)
+		g.aggregateSlice(rng.Fork(), 1)
+	}
+	n := f.Cases(300, 6000)
 	for i := 0; i < n; i++ {
 		r := rng.Fork()
 		ncols := 2 + r.Intn(3)
